@@ -11,7 +11,7 @@ from ..pmodel import LEX_CONSUME, ParserModel
 from ..report import Ctx
 from .. import balanced as balanced_model, linear
 from .c10 import linear_form
-from .c14 import check_lifo, _under_empty_stack
+
 
 LEVEL = "structural rules on the region skippers of parser.py"
 EXPLANATION = (
@@ -214,8 +214,7 @@ def run(ctx: Ctx) -> None:
     ctx.rule("R13.4", "_consume_balanced_tokens interpreted over every short script of bracket tokens: returns right after the balancing closer, keeps every token, a fused ']]' closes two '['; LIFO use of the stack", minimum=4)
     fs, steps = linear.analyse(pm, "_consume_balanced_tokens", {"NEWLINE"})
     ctx.ob("R13.4", "parser:CxxParser._consume_balanced_tokens|every token read is kept", not fs, msg=fs[0].text if fs else "", node=pm.fn("_consume_balanced_tokens"), mod=mod, detail={"path_states": steps})
-    balanced_model.obligations(ctx, "R13.4", pm, ("return", "fused"))
-    check_lifo(ctx, "R13.4", pm)
+    balanced_model.obligations(ctx, "R13.4", pm, ("return", "fused", "tolerant"))
 
 
 def _site_idx(pm: ParserModel, fname: str, call: ast.Call) -> int:
